@@ -74,6 +74,9 @@ func TestTruncateEverywhere(t *testing.T) {
 	cp := startCapture()
 	defer cp.stop()
 	pbt.Check(t, pbt.Cfg{Name: "truncate_everywhere", Quick: 2000, Thorough: 60000}, func(r *pbt.Run) {
+		if wedged.Load() {
+			return
+		}
 		g := newG(r.T)
 		tc := genTruncCase(g)
 		r.Case(tc.asSeq(len(tc.Final.payload())))
@@ -87,6 +90,9 @@ func TestTruncateEverywhere(t *testing.T) {
 		for n := 0; n <= full+1; n++ {
 			if full > 1500 && n > 200 && n < full-200 && n%37 != 0 {
 				continue // very long payloads: both ends densely, the middle every 37th offset
+			}
+			if wedged.Load() {
+				return
 			}
 			cs := tc.asSeq(n)
 			if unsafeToRun(cs.Msgs) {
